@@ -429,15 +429,13 @@ func panicToString(msg any) string {
 	case uintptr:
 		return strconv.FormatUint(uint64(v), 10)
 	case float32:
-		return strconv.FormatFloat(float64(v), 'e', -1, 32)
+		return formatPrintFloat(float64(v))
 	case float64:
-		return strconv.FormatFloat(v, 'e', -1, 64)
+		return formatPrintFloat(v)
 	case complex64:
-		return "(" + strconv.FormatFloat(float64(real(v)), 'e', -1, 32) +
-			strconv.FormatFloat(float64(imag(v)), 'e', -1, 32) + ")"
+		return formatPrintComplex(complex128(v))
 	case complex128:
-		return "(" + strconv.FormatFloat(real(v), 'e', 3, 64) +
-			strconv.FormatFloat(imag(v), 'e', 3, 64) + ")"
+		return formatPrintComplex(v)
 	case string:
 		return v
 	case error:
@@ -478,6 +476,77 @@ func panicToString(msg any) string {
 		}
 		return rt + "(" + s + ")"
 	}
+}
+
+// formatPrintFloat formats v as the print builtin, and so the message of a
+// panic of the gc runtime, does: a sign, seven significant digits and an
+// exponent of three digits.
+func formatPrintFloat(v float64) string {
+	switch {
+	case v != v:
+		return "NaN"
+	case v+v == v && v > 0:
+		return "+Inf"
+	case v+v == v && v < 0:
+		return "-Inf"
+	}
+	const n = 7 // digits printed
+	var buf [n + 7]byte
+	buf[0] = '+'
+	e := 0 // exp
+	if v == 0 {
+		if 1/v < 0 {
+			buf[0] = '-'
+		}
+	} else {
+		if v < 0 {
+			v = -v
+			buf[0] = '-'
+		}
+		// normalize
+		for v >= 10 {
+			e++
+			v /= 10
+		}
+		for v < 1 {
+			e--
+			v *= 10
+		}
+		// round
+		h := 5.0
+		for i := 0; i < n; i++ {
+			h /= 10
+		}
+		v += h
+		if v >= 10 {
+			e++
+			v /= 10
+		}
+	}
+	// format +d.dddd+edd
+	for i := 0; i < n; i++ {
+		s := int(v)
+		buf[i+2] = byte(s + '0')
+		v -= float64(s)
+		v *= 10
+	}
+	buf[1] = buf[2]
+	buf[2] = '.'
+	buf[n+2] = 'e'
+	buf[n+3] = '+'
+	if e < 0 {
+		e = -e
+		buf[n+3] = '-'
+	}
+	buf[n+4] = byte(e/100) + '0'
+	buf[n+5] = byte(e/10)%10 + '0'
+	buf[n+6] = byte(e%10) + '0'
+	return string(buf[:])
+}
+
+// formatPrintComplex formats c as the print builtin does.
+func formatPrintComplex(c complex128) string {
+	return "(" + formatPrintFloat(real(c)) + formatPrintFloat(imag(c)) + "i)"
 }
 
 // missingMethod returns a method in iface and not in typ.
